@@ -115,7 +115,17 @@ def _guarded(fn, arg, cap_s):
     faulthandler.cancel_dump_traceback_later()
 
 
-def pmap(fn, args, workers=None, cap_s=600, chunk=1):
+def make_pool(workers=None):
+  """A fork pool that can be reused across several pmap calls (warm workers)."""
+  workers = workers or min(16, os.cpu_count() or 1)
+  if workers == 1:
+    return None
+  ctx = multiprocessing.get_context("fork")
+  return concurrent.futures.ProcessPoolExecutor(
+      max_workers=workers, mp_context=ctx, initializer=_pool_init)
+
+
+def pmap(fn, args, workers=None, cap_s=600, chunk=1, pool=None):
   """Ordered map over a fork pool. Raises HarnessError on any worker problem.
 
   `fn` must be a module-level function.  Results come back in argument order.
@@ -124,7 +134,7 @@ def pmap(fn, args, workers=None, cap_s=600, chunk=1):
   args = list(args)
   if not args:
     return []
-  if workers == 1 or len(args) == 1:
+  if pool is None and (workers == 1 or len(args) == 1):
     out = []
     for a in args:
       st, val = _guarded(fn, a, cap_s)
@@ -132,10 +142,12 @@ def pmap(fn, args, workers=None, cap_s=600, chunk=1):
         raise HarnessError("task failed (%s): %s" % (st, val))
       out.append(val)
     return out
-  ctx = multiprocessing.get_context("fork")
   out = [None] * len(args)
-  with concurrent.futures.ProcessPoolExecutor(
-      max_workers=workers, mp_context=ctx, initializer=_pool_init) as ex:
+  own = pool is None
+  if own:
+    pool = make_pool(workers)
+  try:
+    ex = pool
     futs = {ex.submit(_guarded, fn, a, cap_s): i for i, a in enumerate(args)}
     try:
       for fut in concurrent.futures.as_completed(futs, timeout=cap_s * 4 + 60):
@@ -151,6 +163,9 @@ def pmap(fn, args, workers=None, cap_s=600, chunk=1):
       for f in futs:
         f.cancel()
       raise HarnessError("pool timed out")
+  finally:
+    if own:
+      pool.shutdown(wait=True, cancel_futures=True)
   return out
 
 
